@@ -11,6 +11,7 @@ import (
 	"os"
 	"os/exec"
 	"strings"
+	"sync"
 	"testing"
 
 	"pgregory.net/rapid"
@@ -294,6 +295,94 @@ func mapRich(t *rapid.T) *recipe.File {
 	return f
 }
 
+// cgoFew: a cgo File with "C" in its import table next to no, one or two other imports (the import block
+// of such a File is written by a path of its own).
+func cgoFew(t *rapid.T) *recipe.File {
+	f := gen.FileSettings(t)
+	var keep []recipe.FileOp
+	for _, op := range f.Ops {
+		if op.Op != "CgoPreamble" && op.Op != "Anon" {
+			keep = append(keep, op)
+		}
+	}
+	f.Ops = keep
+	if rapid.IntRange(0, 5).Draw(t, "nopreamble") > 0 {
+		f.Ops = append(f.Ops, recipe.FileOp{Op: "CgoPreamble", Args: []recipe.Text{"#include <stdlib.h>"}})
+	}
+	how := rapid.IntRange(0, 2).Draw(t, "chow")
+	if how != 0 {
+		f.Ops = append(f.Ops, recipe.FileOp{Op: "Anon", Args: []recipe.Text{"C"}})
+	}
+	if how != 1 {
+		f.Body = append(f.Body, recipe.S().C("Var").C("Id", "_").C("Op", "=").Add(recipe.Qual("C", "int")).C("Call", recipe.Lit(0)))
+	}
+	others := rapid.SampledFrom([]int{0, 1, 1, 1, 1, 2}).Draw(t, "nothers")
+	for i := 0; i < others; i++ {
+		p := rapid.SampledFrom([]string{"fmt", "unsafe", "a/d", "b/d", "github.com/x/foo", "math/rand", "z/rand"}).Draw(t, "otherpath")
+		switch rapid.IntRange(0, 3).Draw(t, "otherhow") {
+		case 0:
+			f.Ops = append(f.Ops, recipe.FileOp{Op: "Anon", Args: []recipe.Text{recipe.Text(p)}})
+		case 1:
+			f.Ops = append(f.Ops, recipe.FileOp{Op: "ImportAlias", Args: []recipe.Text{recipe.Text(p), "al"}})
+			fallthrough
+		default:
+			f.Body = append(f.Body, recipe.S().C("Var").C("Id", "_").C("Op", "=").Add(recipe.Qual(p, "X")))
+		}
+	}
+	return f
+}
+
+// renderSimple builds and renders without touching any package-level switch of the harness (safe to call
+// from several goroutines at once).
+func renderSimple(f *recipe.File) string {
+	var out string
+	if perr := hx.Safe(func() error {
+		buf := &bytes.Buffer{}
+		if err := (&recipe.Builder{}).File(f).Render(buf); err != nil {
+			out = "ERROR: " + err.Error()
+			return nil
+		}
+		out = "OK: " + buf.String()
+		return nil
+	}); perr != nil {
+		return "PANIC: " + perr.Error()
+	}
+	return out
+}
+
+// checkTogether: every recipe of the batch is built and rendered alone, then all of them at the same
+// time, each on a goroutine of its own (nothing is shared between them): same construction, same bytes.
+func checkTogether(b hx.Batch[*recipe.File]) error {
+	refs := make([]string, len(b.Cases))
+	for i, f := range b.Cases {
+		refs[i] = renderSimple(f)
+		if again := renderSimple(f); again != refs[i] {
+			return fmt.Errorf("recipe %d of the batch renders differently when built a second time:\n--- first ---\n%s\n--- second ---\n%s", i, refs[i], again)
+		}
+	}
+	for round := 0; round < b.Rounds; round++ {
+		got := make([]string, len(b.Cases))
+		start := make(chan struct{})
+		var wg sync.WaitGroup
+		for i := range b.Cases {
+			wg.Add(1)
+			go func(i int) {
+				defer wg.Done()
+				<-start
+				got[i] = renderSimple(b.Cases[i])
+			}(i)
+		}
+		close(start)
+		wg.Wait()
+		for i := range got {
+			if got[i] != refs[i] {
+				return fmt.Errorf("recipe %d of the batch, built and rendered while the %d others were being built and rendered on goroutines of their own (round %d), renders differently from the same construction done alone:\n--- alone ---\n%s\n--- together ---\n%s", i, len(b.Cases)-1, round, refs[i], got[i])
+			}
+		}
+	}
+	return nil
+}
+
 func TestC07(t *testing.T) {
 	if os.Getenv("VERIF_C07_CHILD") != "" {
 		t.Skip("child")
@@ -304,7 +393,7 @@ func TestC07(t *testing.T) {
 	if r.Thorough() {
 		rebuilds, procs = 40, 8
 	}
-	r.Rule(fmt.Sprintf("rapid-generated recipes rich in maps (Dicts of 2..12 pairs nested up to 3 deep with literal / identifier / call / qualified keys and values over paths competing for one name, Tags of 2..8 keys, ImportNames tables of 5..200 entries, import sets of 2..15 paths, random File settings) plus random DSL trees and plausible programs; each recipe is built from scratch and rendered %d times in one process and, for one recipe in 20, in %d separate processes; all results (bytes or error text) must be equal; non-trivial = a map with >= 2 entries or >= 2 imports; distinct by recipe", rebuilds, procs))
+	r.Rule(fmt.Sprintf("rapid-generated recipes rich in maps (Dicts of 2..12 pairs nested up to 3 deep with literal / identifier / call / qualified keys and values over paths competing for one name, Tags of 2..8 keys, ImportNames tables of 5..200 entries, import sets of 2..15 paths, random File settings) plus cgo Files with C next to 0..2 other imports, random DSL trees and plausible programs; batches of 3..8 recipes with literal tables built and rendered at the same time on goroutines of their own, compared with the same construction done alone; each recipe is built from scratch and rendered %d times in one process and, for one recipe in 20, in %d separate processes; all results (bytes or error text) must be equal; non-trivial = a map with >= 2 entries or >= 2 imports; distinct by recipe", rebuilds, procs))
 	r.Assume("map iteration orders are sampled by repetition, not enumerated: the Go runtime does not let a program choose them")
 	n := 0
 	mk := func(f *recipe.File, rt *rapid.T) Case {
@@ -321,6 +410,33 @@ func TestC07(t *testing.T) {
 		r.NonTrivial(recipe.JSON(c.File))
 		r.Class("map_rich")
 		return c
+	})
+	hx.Rapid(r, t, hx.Check[Case]{Name: "cgo_few_imports", Fn: check}, r.N(150, 600), func(rt *rapid.T) Case {
+		c := mk(cgoFew(rt), rt)
+		c.Procs = 0
+		r.NonTrivial(recipe.JSON(c.File))
+		r.Class("cgo_few_imports")
+		return c
+	})
+	hx.Rapid(r, t, hx.Check[hx.Batch[*recipe.File]]{Name: "built_and_rendered_together", Fn: checkTogether}, r.N(30, 200), func(rt *rapid.T) hx.Batch[*recipe.File] {
+		b := hx.Batch[*recipe.File]{Rounds: 4}
+		for i := rapid.IntRange(3, 8).Draw(rt, "files"); i > 0; i-- {
+			f := mapRich(rt)
+			// tables of literals: a long list of numbers and strings
+			var vals []*recipe.Node
+			for k := rapid.IntRange(20, 120).Draw(rt, "nlits"); k > 0; k-- {
+				if rapid.Bool().Draw(rt, "strlit") {
+					vals = append(vals, recipe.Lit(fmt.Sprintf("file-%d-item-%d", i, k)))
+				} else {
+					vals = append(vals, recipe.Lit(i*1000000+k))
+				}
+			}
+			f.Body = append(f.Body, recipe.S().C("Var").C("Id", "_").C("Op", "=").C("Index").C("Interface").C("Values", vals))
+			b.Cases = append(b.Cases, f)
+		}
+		r.NonTrivial(recipe.JSON(b))
+		r.Class("built_and_rendered_together")
+		return b
 	})
 	hx.Rapid(r, t, hx.Check[Case]{Name: "plausible_program", Fn: check}, r.N(200, 600), func(rt *rapid.T) Case {
 		f := gen.FileSettings(rt)
